@@ -53,9 +53,9 @@ pub fn send(&self, message: ControlMessage, priority: Priority, env: &mut Env)
     requires wf_tx(self),
     ensures
         // the message is appended to exactly the queue of its priority; the other two are untouched
-        priority is Normal ==> final(env).normal@ == old(env).normal@.push(msg_id(message)) && final(env).high == old(env).high && final(env).urgent == old(env).urgent, // OBL:C10.send.normal_routes_to_normal
-        priority is High ==> final(env).high@ == old(env).high@.push(msg_id(message)) && final(env).normal == old(env).normal && final(env).urgent == old(env).urgent, // OBL:C10.send.high_routes_to_high
-        priority is Urgent ==> final(env).urgent@ == old(env).urgent@.push(msg_id(message)) && final(env).normal == old(env).normal && final(env).high == old(env).high, // OBL:C10.send.urgent_routes_to_urgent
+        priority is Normal ==> final(env).normal@ == old(env).normal@.push(message) && final(env).high == old(env).high && final(env).urgent == old(env).urgent, // OBL:C10.send.normal_routes_to_normal
+        priority is High ==> final(env).high@ == old(env).high@.push(message) && final(env).normal == old(env).normal && final(env).urgent == old(env).urgent, // OBL:C10.send.high_routes_to_high
+        priority is Urgent ==> final(env).urgent@ == old(env).urgent@.push(message) && final(env).normal == old(env).normal && final(env).high == old(env).high, // OBL:C10.send.urgent_routes_to_urgent
         same_world(old(env), final(env)), final(env).now == old(env).now,
 //@ item PriorityReceiver::recv
 //@ header
@@ -81,11 +81,11 @@ pub fn recv(&mut self, stop_timer: &mut Option<Timer>, env: &mut Env) -> (r: Opt
         (*old(stop_timer)) is Some ==> final(env).now@ <= (if old(env).now@ >= (*old(stop_timer))->Some_0.until.t { old(env).now@ } else { (*old(stop_timer))->Some_0.until.t }) || (*final(stop_timer)) is Some, // OBL:C06.recv.kill_at_expiry
         // ---- ordering (C10), over the queue contents at entry ----
         !timer_expired(*old(stop_timer), old(env).now@) && old(env).urgent@.len() > 0 && (*final(stop_timer)) == (*old(stop_timer)) ==>
-            r is Some && msg_id(r->Some_0) == old(env).urgent@[0], // OBL:C10.recv.urgent_first
+            r is Some && r->Some_0 == old(env).urgent@[0], // OBL:C10.recv.urgent_first
         !timer_expired(*old(stop_timer), old(env).now@) && old(env).urgent@.len() == 0 && old(env).high@.len() > 0 && (*final(stop_timer)) == (*old(stop_timer)) ==>
-            r is Some && (msg_id(r->Some_0) == old(env).high@[0] || popped_from(old(env).urgent@, final(env).urgent@, msg_id(r->Some_0))), // OBL:C10.recv.high_before_normal
+            r is Some && (r->Some_0 == old(env).high@[0] || popped_from(old(env).urgent@, final(env).urgent@, r->Some_0)), // OBL:C10.recv.high_before_normal
         // whatever is returned from a queue is that queue's head and exactly that one message is removed; nothing else is reordered
-        (*final(stop_timer)) == (*old(stop_timer)) && r is Some ==> popped_head(old(env), final(env), msg_id(r->Some_0)), // OBL:C10.recv.pops_exactly_the_head
+        (*final(stop_timer)) == (*old(stop_timer)) && r is Some ==> popped_head(old(env), final(env), r->Some_0), // OBL:C10.recv.pops_exactly_the_head
 //@ prologue
 broadcast use prefix_trans, prefix_refl;
 //@ end
@@ -96,7 +96,7 @@ pub fn is_running(&self) -> (r: bool)
     ensures r == (*self is Running), // OBL:C09.is_running.exact
 //@ item CommandState::spawn
 //@ header
-pub(crate) fn spawn(&mut self, command: ArcCommand, mut spawnable: Spawnable, env: &mut Env) -> (r: Result<bool, IoError>)
+pub fn spawn(&mut self, command: ArcCommand, mut spawnable: Spawnable, env: &mut Env) -> (r: Result<bool, IoError>)
     ensures
         // never a second process while one is owned: a running state is left alone and nothing is spawned
         *old(self) is Running ==> r == Ok::<bool, IoError>(false) && *final(self) == *old(self) && *final(env) == *old(env), // OBL:C04.spawn.noop_while_running
@@ -109,7 +109,7 @@ pub(crate) fn spawn(&mut self, command: ArcCommand, mut spawnable: Spawnable, en
         final(env).raised == old(env).raised, final(env).now@ >= old(env).now@,
 //@ item CommandState::reset
 //@ header
-pub(crate) fn reset(&mut self, env: &mut Env) -> (r: Self)
+pub fn reset(&mut self, env: &mut Env) -> (r: Self)
     requires !(*old(self) is Running), // OBL:C04.reset.never_drops_a_live_child
     ensures
         *final(self) is Pending, // OBL:C09.reset.pending_after
@@ -117,7 +117,7 @@ pub(crate) fn reset(&mut self, env: &mut Env) -> (r: Self)
         same_world(old(env), final(env)), final(env).now == old(env).now,
 //@ item CommandState::wait
 //@ header
-pub(crate) fn wait(&mut self, env: &mut Env) -> (r: Result<bool, IoError>)
+pub fn wait(&mut self, env: &mut Env) -> (r: Result<bool, IoError>)
     ensures
         !(*old(self) is Running) ==> r == Ok::<bool, IoError>(false) && *final(self) == *old(self) && *final(env) == *old(env), // OBL:C09.wait.noop_unless_running
         *old(self) is Running ==> pushed1(old(env), final(env)) && is_wait(at(old(env), final(env), 0), running_cid(cs_view(old(self))), r is Ok), // OBL:C04.wait.one_reap_attempt
@@ -180,7 +180,7 @@ broadcast use axiom_terminate_to_nix;
         control is TryRestart ==> c09_try_restart($OV, $FV, $ENVS, command) && r is Normally, // OBL:C09.control.try_restart
         control is ContinueTryGracefulRestart ==> c09_continue($OV, $FV, $ENVS, command) && r is Normally, // OBL:C06+C09.control.continue_try_graceful_restart
         // restart exactly once: once the replacement has been started for a graceful try-restart, no restart request stays pending
-        control is ContinueTryGracefulRestart && attempted_respawn($ENVS) ==> $FV.on_end_restart is None, // OBL:C06.control.continue_clears_pending_restart
+        control is ContinueTryGracefulRestart ==> $FV.on_end_restart is None, // OBL:C06.control.continue_clears_pending_restart
         control is GracefulStop ==> c09_graceful($OV, $FV, $ENVS, control->GracefulStop_signal, control->GracefulStop_grace, done.id, false, r is Skip), // OBL:C06+C09.control.graceful_stop
         control is TryGracefulRestart ==> c09_graceful($OV, $FV, $ENVS, control->TryGracefulRestart_signal, control->TryGracefulRestart_grace, done.id, true, r is Skip), // OBL:C06+C09.control.try_graceful_restart
         control is Signal ==> c09_signal($OV, $FV, $ENVS, control->Signal_0) && r is Normally, // OBL:C09.control.signal
@@ -312,6 +312,112 @@ broadcast use lemma_all_ids_push;
 $RAISE_LOOP_PRE
 $INV_SM
 //@ end
+
+// ---- Job: the sender side (C10, and the decision tables of C05/C06 rest on these) ----
+//@ item Ticket
+//@ item Job
+//@ item Ticket::cancelled
+//@ header
+pub fn cancelled(env: &mut Env) -> (r: Self)
+    ensures
+        final(env).raised@.contains(r.job_gone.id) && final(env).raised@.contains(r.control_done.id), // OBL:C07.Ticket_cancelled.already_resolved
+        final(env).log == old(env).log, final(env).live == old(env).live, final(env).now == old(env).now,
+        final(env).urgent == old(env).urgent, final(env).high == old(env).high, final(env).normal == old(env).normal,
+        forall|f: int| old(env).raised@.contains(f) ==> final(env).raised@.contains(f),
+//@ item Job::prepare_control
+//@ header
+fn prepare_control(&self, control: Control, env: &mut Env) -> (r: (Ticket, ControlMessage))
+    ensures
+        r.1.control == control, // OBL:C10.prepare_control.carries_the_control
+        r.0.control_done.id == r.1.done.id && r.0.job_gone.id == self.gone.id, // OBL:C07.prepare_control.ticket_watches_this_control_and_the_job
+        !old(env).raised@.contains(r.1.done.id), // OBL:C07.prepare_control.fresh_unraised_flag
+        *final(env) == *old(env),
+//@ item Job::send_controls
+//@ header
+pub fn send_controls<const N: usize>(&self, controls: [Control; N], priority: Priority, env: &mut Env) -> (r: Ticket)
+    requires wf_tx(&self.control_queue),
+    ensures
+        job_sends(self, $ENVS, priority, controls@, r), // OBL:C10.send_controls.all_controls_in_order_same_priority
+//@ loop 0 iter=vx_it
+let ghost vx_l = *env; let ghost vx_cs = controls@;
+invariant
+    vx_it.seq() == vx_cs, 0 <= vx_it.index@ <= vx_cs.len(), wf_tx(&self.control_queue),
+    sent(&vx_l, env, priority, vx_cs.subrange(0, vx_it.index@ as int)),
+    vx_it.index@ > 0 ==> last_ticket is Some && ticket_for(last_ticket->Some_0, self, qp(env, priority).last()),
+    vx_l.raised == env.raised,
+//@ end
+//@ item Job::control
+//@ header
+pub fn control(&self, control: Control, env: &mut Env) -> (r: Ticket)
+    requires wf_tx(&self.control_queue),
+    ensures
+        job_sends(self, $ENVS, priority_normal(), seq![control], r), // OBL:C10.job_control.sends_exactly
+//@ item Job::start
+//@ header
+pub fn start(&self, env: &mut Env) -> (r: Ticket)
+    requires wf_tx(&self.control_queue),
+    ensures
+        job_sends(self, $ENVS, priority_normal(), seq![Control::Start], r), // OBL:C10+C05.job_start.sends_exactly
+//@ item Job::stop
+//@ header
+pub fn stop(&self, env: &mut Env) -> (r: Ticket)
+    requires wf_tx(&self.control_queue),
+    ensures
+        job_sends(self, $ENVS, priority_normal(), seq![Control::Stop], r), // OBL:C10.job_stop.sends_exactly
+//@ item Job::stop_with_signal
+//@ header
+pub fn stop_with_signal(&self, signal: Signal, grace: Duration, env: &mut Env) -> (r: Ticket)
+    requires wf_tx(&self.control_queue),
+    ensures
+        job_sends(self, $ENVS, priority_normal(), seq![Control::GracefulStop { signal, grace }], r), // OBL:C10+C06.job_stop_with_signal.sends_exactly
+//@ item Job::restart
+//@ header
+pub fn restart(&self, env: &mut Env) -> (r: Ticket)
+    requires wf_tx(&self.control_queue),
+    ensures
+        job_sends(self, $ENVS, priority_normal(), seq![Control::Stop, Control::Start], r), // OBL:C10+C05.job_restart.sends_exactly
+//@ item Job::restart_with_signal
+//@ header
+pub fn restart_with_signal(&self, signal: Signal, grace: Duration, env: &mut Env) -> (r: Ticket)
+    requires wf_tx(&self.control_queue),
+    ensures
+        job_sends(self, $ENVS, priority_normal(), seq![Control::GracefulStop { signal, grace }, Control::Start], r), // OBL:C10+C06.job_restart_with_signal.sends_exactly
+//@ item Job::try_restart
+//@ header
+pub fn try_restart(&self, env: &mut Env) -> (r: Ticket)
+    requires wf_tx(&self.control_queue),
+    ensures
+        job_sends(self, $ENVS, priority_normal(), seq![Control::TryRestart], r), // OBL:C10.job_try_restart.sends_exactly
+//@ item Job::try_restart_with_signal
+//@ header
+pub fn try_restart_with_signal(&self, signal: Signal, grace: Duration, env: &mut Env) -> (r: Ticket)
+    requires wf_tx(&self.control_queue),
+    ensures
+        job_sends(self, $ENVS, priority_normal(), seq![Control::TryGracefulRestart { signal, grace }], r), // OBL:C10+C06.job_try_restart_with_signal.sends_exactly
+//@ item Job::signal
+//@ header
+pub fn signal(&self, sig: Signal, env: &mut Env) -> (r: Ticket)
+    requires wf_tx(&self.control_queue),
+    ensures
+        job_sends(self, $ENVS, priority_normal(), seq![Control::Signal(sig)], r), // OBL:C10+C05.job_signal.sends_exactly
+//@ item Job::delete
+//@ header
+pub fn delete(&self, env: &mut Env) -> (r: Ticket)
+    requires wf_tx(&self.control_queue),
+    ensures
+        job_sends(self, $ENVS, priority_normal(), seq![Control::Stop, Control::Delete], r), // OBL:C10.job_delete.sends_exactly
+//@ item Job::delete_now
+//@ header
+pub fn delete_now(&self, env: &mut Env) -> (r: Ticket)
+    requires wf_tx(&self.control_queue),
+    ensures
+        job_sends(self, $ENVS, priority_urgent(), seq![Control::Stop, Control::Delete], r), // OBL:C10.job_delete_now.sends_exactly
+//@ item Job::to_wait
+//@ header
+pub fn to_wait(&self, env: &mut Env) -> (r: Ticket)
+    requires wf_tx(&self.control_queue),
+    ensures
+        job_sends(self, $ENVS, priority_high(), seq![Control::NextEnding], r), // OBL:C10.job_to_wait.sends_exactly
 
 //@ item control_groups_cover
 //@ raw
